@@ -155,6 +155,16 @@ func fnKey(f *ssa.Function) string {
 	if o := f.Origin(); o != nil {
 		f = o
 	}
+	// closure of a method: the enclosing method's key plus the $N suffix (two methods may share a name)
+	if p := f.Parent(); p != nil && f.Signature.Recv() == nil {
+		top := p
+		for top.Parent() != nil {
+			top = top.Parent()
+		}
+		if top.Signature.Recv() != nil && strings.HasPrefix(f.Name(), top.Name()+"$") {
+			return fnKey(top) + f.Name()[len(top.Name()):]
+		}
+	}
 	pkg := ""
 	if f.Pkg != nil {
 		pkg = f.Pkg.Pkg.Name()
@@ -225,6 +235,11 @@ func (c *FnCtx) applyContract(callee *ssa.Function, spec *FuncSpec, bindings, ar
 	pre := copyState(c.st)
 	// requires
 	for i, cl := range spec.Requires {
+		if c.E.establishedAtCreation(callee, cl) {
+			// a clause over captured, never reassigned variables only: obliged where the closure is made
+			// (kind closure-precondition in the enclosing function, which is itself under contract)
+			continue
+		}
 		env := &specEnv{c: c, vars: names, st: pre, old: pre, bound: map[string]Val{}, callee: callee}
 		t, err := env.evalBool(cl.Expr)
 		if err != nil {
@@ -925,4 +940,111 @@ func (e *Engine) preRegisterExterns() {
 			}
 		}
 	}
+}
+
+// establishedAtCreation: the requires clause of a closure mentions captured variables only, each of them
+// is written exactly once in the enclosing function before the closure is made and never by a closure,
+// and the enclosing function is under contract (so the closure-precondition obligation is checked).
+func (e *Engine) establishedAtCreation(callee *ssa.Function, cl *Clause) bool {
+	parent := callee.Parent()
+	if parent == nil || e.Specs.Funcs[fnKey(parent)] == nil {
+		return false
+	}
+	names := map[string]bool{}
+	var walk func(x *SX)
+	walk = func(x *SX) {
+		if x == nil {
+			return
+		}
+		if x.Op == "ident" {
+			names[x.Name] = true
+		}
+		for _, a := range x.Args {
+			walk(a)
+		}
+	}
+	walk(cl.Expr)
+	for _, p := range callee.Params {
+		if names[p.Name()] {
+			return false
+		}
+	}
+	if names["result"] || names["err"] {
+		return false
+	}
+	found := 0
+	for i, fv := range callee.FreeVars {
+		if !names[fv.Name()] {
+			continue
+		}
+		found++
+		if !e.freeVarReadOnly(fv, 0) {
+			return false
+		}
+		// every creation site in the parent binds an Alloc written once, before the closure is made
+		sites := 0
+		for _, b := range parent.Blocks {
+			for _, in := range b.Instrs {
+				mc, ok := in.(*ssa.MakeClosure)
+				if !ok || mc.Fn != ssa.Value(callee) || i >= len(mc.Bindings) {
+					continue
+				}
+				sites++
+				al, ok := mc.Bindings[i].(*ssa.Alloc)
+				if !ok || !e.writtenOnceBefore(al, mc) {
+					return false
+				}
+			}
+		}
+		if sites == 0 {
+			return false
+		}
+	}
+	return found > 0
+}
+
+func (e *Engine) writtenOnceBefore(al *ssa.Alloc, mc *ssa.MakeClosure) bool {
+	refs := al.Referrers()
+	if refs == nil {
+		return false
+	}
+	stores := 0
+	for _, r := range *refs {
+		switch x := r.(type) {
+		case *ssa.DebugRef, *ssa.UnOp:
+		case *ssa.Store:
+			if x.Addr != ssa.Value(al) {
+				return false
+			}
+			stores++
+			if !(x.Block() == mc.Block() && instrIndex(x) < instrIndex(mc)) && !x.Block().Dominates(mc.Block()) {
+				return false
+			}
+			if x.Block() != mc.Block() && x.Block() == al.Block() && false {
+				return false
+			}
+		case *ssa.MakeClosure:
+			fn := x.Fn.(*ssa.Function)
+			for i, b := range x.Bindings {
+				if b == ssa.Value(al) {
+					if i >= len(fn.FreeVars) || !e.freeVarReadOnly(fn.FreeVars[i], 0) {
+						return false
+					}
+				}
+			}
+		default:
+			return false
+		}
+	}
+	// an Alloc inside a loop is a new cell per iteration, so one dominating store is one write per cell
+	return stores == 1
+}
+
+func instrIndex(in ssa.Instruction) int {
+	for i, x := range in.Block().Instrs {
+		if x == in {
+			return i
+		}
+	}
+	return -1
 }
